@@ -66,6 +66,8 @@ impl Bytes {
 
 pub struct Record {
     pub key: Vec<u8>,
+    // record.rs: `key.len() as u16` - the on-disk key length field; NOT the key's length for keys above 65535 bytes
+    pub key_len: u16,
     pub value_len: usize,
     pub timestamp: u64,
     pub refcount: AtomicU32,
@@ -76,7 +78,7 @@ pub struct Record {
 // bytes accounted for a record: fixed overhead + key + value (operations.rs calculate_record_size and
 // record.rs calculate_size agree: Kani record_size_formulas_agree / record_size_formula_all_lengths)
 pub uninterp spec fn record_overhead() -> nat;
-pub uninterp spec fn rec_value_len(r: &Record) -> nat;
+pub open spec fn rec_value_len(r: &Record) -> nat { r.value_len as nat }
 // the value bytes a generation holds in memory (None once offloaded or when deferred)
 pub uninterp spec fn rec_resident(r: &Record) -> Option<Seq<u8>>;
 pub open spec fn rec_size(r: &Record) -> nat {
